@@ -78,7 +78,9 @@ impl Parser {
             ));
         }
 
+        // (the rows of a grouped query depend on the files through its keys)
         if limit == 0
+            && grouping_fields.is_empty()
             && fields
                 .iter()
                 .all(|expr| expr.get_required_fields().is_empty())
